@@ -76,7 +76,7 @@ fn main() {
                 workers: arg_after(&args, "--workers").and_then(|s| s.parse().ok()).unwrap_or(16),
                 runs_override: arg_after(&args, "--runs").or_else(|| std::env::var("VERIF_RUNS").ok()).and_then(|s| s.parse().ok()),
                 watchdog: Duration::from_secs(arg_after(&args, "--watchdog").and_then(|s| s.parse().ok()).unwrap_or(60)),
-                minimise_budget: Duration::from_secs(if tier == Tier::Quick { 60 } else { 240 }),
+                minimise_budget: Duration::from_secs(if tier == Tier::Quick { 30 } else { 180 }),
                 keep_digests: true,
                 write_evidence: !args.iter().any(|a| a == "--no-evidence"),
             };
@@ -117,6 +117,21 @@ fn main() {
                     std::process::exit(2);
                 }
             }
+        }
+        "reference" => props::c08::reference_main(),
+        "rt" => {
+            // debug helper: rt <in.wasm> <cfg-mask> <out-prefix>: writes <prefix>.1.wasm (parse+emit) and <prefix>.2.wasm (again)
+            let b = std::fs::read(&args[2]).unwrap();
+            let cfg = types::CfgBits::from_mask(args[3].parse().unwrap());
+            let (m, _) = ser::parse_with(&b, &cfg);
+            let mut m = m.unwrap();
+            let e1 = m.emit_wasm();
+            std::fs::write(format!("{}.1.wasm", args[4]), &e1).unwrap();
+            println!("e1 {} bytes valid={:?}", e1.len(), validator::validate(&e1, false));
+            let (m2, _) = ser::parse_with(&e1, &cfg);
+            let e2 = match m2 { Ok(mut m) => m.emit_wasm(), Err(e) => { println!("reparse failed: {}", e); return; } };
+            std::fs::write(format!("{}.2.wasm", args[4]), &e2).unwrap();
+            println!("e1 {} bytes valid={:?}; e2 {} bytes valid={:?}; equal={}", e1.len(), validator::validate(&e1, false), e2.len(), validator::validate(&e2, false), e1 == e2);
         }
         "gentest" => {
             let n: u64 = args.get(2).and_then(|s| s.parse().ok()).unwrap_or(2000);
